@@ -58,6 +58,8 @@ class Ref:
             else:
                 self.defs[var] = (op, a)
         self._n = 0
+        self.dl_max1 = {v for v, (op, a) in self.defs.items()
+                        if op == "DelimitedList" and len(a) > 1 and isinstance(a[1], dict) and a[1].get("max") == 1}
         for var in list(self.defs):
             self.desugar(var)
         self._skips = {}
@@ -70,6 +72,36 @@ class Ref:
         # error stops: which elements a '-' protects follows streamline()'s flattening; that is unambiguous for chains
         # written with binary + / - (flattened completely), not for a sequence containing '-' that is itself an element
         # of And([...]) / e*n / e[m,n] / DelimitedList(e) (flattened or not depending on the arity) - outside the reading
+        # stop_on / fail_on expressions are parsed without ever being streamlined (registered C12 finding
+        # streamline_changes_unstreamlined_user): a '-' inside one is not flattened into its sequence and protects nothing
+        sentinels = []
+        for v, (op, a) in self.defs.items():
+            if op in ("ZeroOrMore", "OneOrMore") and len(a) > 1 and a[1] is not None:
+                sentinels.append(a[1])
+            if op == "SkipTo" and len(a) > 1 and isinstance(a[1], dict) and a[1].get("fail_on"):
+                sentinels.append(a[1]["fail_on"])
+        seen, todo = set(), list(sentinels)
+        while todo:
+            x = todo.pop()
+            if x in seen or x not in self.defs:
+                continue
+            seen.add(x)
+            op, a = self.defs[x]
+            if op == "-":
+                raise Unsupported("error stop inside a stop_on / fail_on expression")
+            if x in self.dl_max1:
+                # DelimitedList(e, max=1) is And([e, And([])]); until streamline() removes the empty And it raises
+                # IndexError -> ParseException, so as an unstreamlined sentinel it never matches (same C12 finding)
+                raise Unsupported("DelimitedList(max=1) inside a stop_on / fail_on expression")
+            for y in a:
+                if isinstance(y, str):
+                    todo.append(y)
+                elif isinstance(y, list):
+                    todo += [z for z in y if isinstance(z, str)]
+                elif isinstance(y, dict):
+                    todo += [z for z in y.values() if isinstance(z, str)]
+            if op == "Forward" and x in self.fwd:
+                todo.append(self.fwd[x])
         for v, (op, a) in self.defs.items():
             if op in ("And", "*"):
                 for x in (a[0] if op == "And" else [a[0]]):
